@@ -67,6 +67,26 @@ def _validate_traces(wd, name, trace_path, nrecords, verdict, histories):
     return len(rejected)
 
 
+def _trace_selftest(wd, trace_path, seed):
+    """direction B self-test: drop one member from one recorded observation -> TLC must reject exactly it."""
+    lines = open(trace_path).read().splitlines()[:300]
+    k = (seed * 37) % len(lines)
+    rec = json.loads(lines[k])
+    rec["obs"][-1][0] = rec["obs"][-1][0][1:]          # the first set loses a member (an interval disappears)
+    if not rec["obs"][-1][0]:
+        rec["obs"][-1] = rec["obs"][-1][1:]
+    lines[k] = json.dumps(rec)
+    with open(os.path.join(wd, "nesting_selftest.ndjson"), "w") as fh:
+        fh.write("\n".join(lines) + "\n")
+    with open(os.path.join(wd, "IntervalTrace_selftest.cfg"), "w") as fh:
+        fh.write(TRACE_CFG % "nesting_selftest.ndjson")
+    r = vf.tlc("IntervalTrace", "IntervalTrace_selftest.cfg", wd, workers=1, timeout=600)
+    rejected = [int(m.group(1)) for m in re.finditer(r'REJECT (\d+)', open(r.stdout_path).read())]
+    if rejected != [k + 1]:
+        raise vf.MachineryError("trace self-test: dropped interval in record %d not rejected (rejected: %s)" % (k + 1, rejected))
+    return True
+
+
 def run(pid, tier, replay=None):
     t0 = time.time()
     wd = vf.workdir(pid)
@@ -88,7 +108,7 @@ def run(pid, tier, replay=None):
         runs = [("replay", maxp, maxlen, None, 1)]
     elif tier == "thorough":
         runs = [("exh_p4_l5", 4, 5, None, 0), ("exh_p5_l4", 5, 4, None, 1), ("exh_p2_l7", 2, 7, None, 4),
-                ("exh_p1_l11", 1, 11, None, 4), ("sim_p9_l12", 9, 12, 400, 1)]
+                ("exh_p1_l10", 1, 10, None, 4), ("sim_p9_l12", 9, 12, 400, 1)]
     else:
         runs = [("exh_p4_l4", 4, 4, None, 3), ("exh_p2_l5", 2, 5, None, 1), ("exh_p1_l7", 1, 7, None, 1),
                 ("sim_p7_l9", 7, 9, 40, 0)]
@@ -96,6 +116,7 @@ def run(pid, tier, replay=None):
     states = trans = ncases = nontrivial = checks = traced = rejected_total = 0
     samples, bounds, variants = [], [], {}
     corrupt_ok = None
+    trace_selftest = None
     for name, maxp, maxlen, sim, do_trace in runs:
         cfg = "MCInterval_%s.cfg" % name
         module = "MCInterval"
@@ -162,15 +183,25 @@ def run(pid, tier, replay=None):
             variants[k] = variants.get(k, 0) + v
         if do_trace:
             traced += stats["trace_records"]
-            rejected_total += _validate_traces(wd, name, trace_path, stats["trace_records"], verdict, None)
+            rej = _validate_traces(wd, name, trace_path, stats["trace_records"], verdict, None)
+            rejected_total += rej
+            if trace_selftest is None and tier == "thorough" and not replay and rej == 0:
+                trace_selftest = _trace_selftest(wd, trace_path, seed)
 
         # binding self-test (once per run of the check): a damaged expectation must be reported
         if corrupt_ok is None and not replay:
-            k = (seed * 7919) % cnt[0]
-            rc, o, err = vf.run_driver(binary, ["-seed", str(seed), "-corrupt", str(k)], stdin_path=casefile, timeout=3000)
-            base = sum(1 for _ in open(outp)) - 1
-            got = sum(1 for l in o.splitlines() if '"stats"' not in l)
-            corrupt_ok = got > base
+            head = os.path.join(wd, "selftest.jsonl")
+            with open(head, "w") as hf:
+                for idx, line in enumerate(open(casefile)):
+                    if idx >= 2000:
+                        break
+                    hf.write(line)
+            k = (seed * 7919) % min(2000, cnt[0])
+            got = []
+            for extra_args in ([], ["-corrupt", str(k)]):
+                rc, o, err = vf.run_driver(binary, ["-seed", str(seed)] + extra_args, stdin_path=head, timeout=3000)
+                got.append([json.loads(l) for l in o.splitlines() if '"stats"' in l][-1]["stats"]["mismatches"])
+            corrupt_ok = got[1] > got[0]
             if not corrupt_ok:
                 raise vf.MachineryError("binding self-test failed: corrupted expectation in case %d not reported" % k)
 
@@ -190,6 +221,7 @@ def run(pid, tier, replay=None):
         "bounds": bounds,
         "concretisations": variants,
         "binding_selftest_corrupted_expectation_reported": corrupt_ok,
+        "binding_selftest_dropped_trace_member_rejected": trace_selftest,
     }, ["Interval.tla is the oracle (written from the property statement and the doc comments of Intersect/Nesting)",
         "the value of the i-th insert is i, so all values are distinct; with equal values the maximal-run form of "
         "Entries() would not be canonical",
